@@ -238,13 +238,16 @@ for nm, x, path, V, op in ELEMENTWISE + UNREGISTERED:
     P = 'push_state'
     osec = 'top(old(%s).%s@, 1).values@' % (P, {'boolvec': 'bool_vector_stack', 'intvec': 'int_vector_stack', 'floatvec': 'float_vector_stack'}[x])
     otp = osec.replace(', 1)', ', 0)')
-    FN_OVERLAYS[path] = dict(loops={0: '''            invariant
-                %(V)s@.len() == 2, scd_size == %(sec)s.len(), r3_it0.start <= r3_it0.end, r3_it0.end == %(tp)s.len(),
-                scd_size < 0x7fff_ffff, r3_it0.end < 0x7fff_ffff,
-                %(V)s@[1].values@ == %(tp)s,
-                %(V)s@[0].values@ =~= overlay_upto(%(sec)s, %(tp)s, offset as int, %(op)s, r3_it0.start as int),
+    FN_OVERLAYS[path] = dict(loops={0: '''            //bind V = if let Some\\((?:mut )?(\\w+)\\) = push_state\\.\\w+\\.pop_vec\\(2\\)
+            //bind OFS = if let Some\\((\\w+)\\) = push_state\\.int_stack\\.pop\\(\\)
+            //bind SIZE = let (\\w+) = \\w+\\[0\\]\\.values\\.len\\(\\);
+            invariant
+                $V@.len() == 2, $SIZE == %(sec)s.len(), r3_it0.start <= r3_it0.end, r3_it0.end == %(tp)s.len(),
+                $SIZE < 0x7fff_ffff, r3_it0.end < 0x7fff_ffff,
+                $V@[1].values@ == %(tp)s,
+                $V@[0].values@ =~= overlay_upto(%(sec)s, %(tp)s, $OFS as int, %(op)s, r3_it0.start as int),
             ensures
-                %(V)s@.len() == 2, %(V)s@[0].values@ =~= overlay(%(sec)s, %(tp)s, offset as int, %(op)s),
+                $V@.len() == 2, $V@[0].values@ =~= overlay(%(sec)s, %(tp)s, $OFS as int, %(op)s),
             decreases r3_it0.end - r3_it0.start,
 ''' % dict(V=V, sec=osec, tp=otp, op=op)})
 
@@ -265,15 +268,19 @@ for nm, x, path, zero, op in [
                       % (x, nozero, x, sec, tp, off, op))])
     osec = 'top(old(push_state).%s@, 1).values@' % VFIELD[x]
     otp = 'top(old(push_state).%s@, 0).values@' % VFIELD[x]
-    FN_OVERLAYS[path] = dict(loops={0: '''            invariant
-                iv@.len() == 2, scd_size == %(sec)s.len(), r3_it0.start <= r3_it0.end, r3_it0.end == %(tp)s.len(),
-                scd_size < 0x7fff_ffff, r3_it0.end < 0x7fff_ffff,
-                iv@[1].values@ == %(tp)s,
-                iv@[0].values@ =~= overlay_upto(%(sec)s, %(tp)s, offset as int, %(op)s, r3_it0.start as int),
-                invalid <==> (exists|i: int| 0 <= i < r3_it0.start && 0 <= i + offset < %(sec)s.len() && %(z)s),
+    FN_OVERLAYS[path] = dict(loops={0: '''            //bind V = if let Some\\((?:mut )?(\\w+)\\) = push_state\\.\\w+\\.pop_vec\\(2\\)
+            //bind OFS = if let Some\\((\\w+)\\) = push_state\\.int_stack\\.pop\\(\\)
+            //bind SIZE = let (\\w+) = \\w+\\[0\\]\\.values\\.len\\(\\);
+            //bind INVALID = let mut (\\w+) = false;
+            invariant
+                $V@.len() == 2, $SIZE == %(sec)s.len(), r3_it0.start <= r3_it0.end, r3_it0.end == %(tp)s.len(),
+                $SIZE < 0x7fff_ffff, r3_it0.end < 0x7fff_ffff,
+                $V@[1].values@ == %(tp)s,
+                $V@[0].values@ =~= overlay_upto(%(sec)s, %(tp)s, $OFS as int, %(op)s, r3_it0.start as int),
+                $INVALID <==> (exists|i: int| 0 <= i < r3_it0.start && 0 <= i + $OFS < %(sec)s.len() && %(z)s),
             ensures
-                iv@.len() == 2, iv@[0].values@ =~= overlay(%(sec)s, %(tp)s, offset as int, %(op)s),
-                invalid <==> (exists|i: int| 0 <= i < %(tp)s.len() && 0 <= i + offset < %(sec)s.len() && %(z)s),
+                $V@.len() == 2, $V@[0].values@ =~= overlay(%(sec)s, %(tp)s, $OFS as int, %(op)s),
+                $INVALID <==> (exists|i: int| 0 <= i < %(tp)s.len() && 0 <= i + $OFS < %(sec)s.len() && %(z)s),
             decreases r3_it0.end - r3_it0.start,
 ''' % dict(sec=osec, tp=otp, op=op, z=zero % ('#[trigger] %s[i]' % otp))})
 
@@ -283,11 +290,13 @@ row('BOOLVECTOR.NOT', ['C09'], takes=[('boolvec', 1), ('int', 1)], pushes=[('boo
     clauses=[('fired.value.boolvec.0', '(S0.boolvec.len() >= 1 && S0.int.len() >= 1) ==> top(S1.boolvec, 0).values@ =~= '
               'Seq::new(%s.len(), |j: int| if 0 <= j - (top(S0.int, 0) as int) < %s.len() { !%s[j] } else { %s[j] })' % (_v, _v, _v, _v))])
 _ov = 'top(old(push_state).bool_vector_stack@, 0).values@'
-FN_OVERLAYS['vector::bool_vector_not'] = dict(loops={0: '''            invariant
-                r3_it0.start <= r3_it0.end, r3_it0.end == %(v)s.len(), r3_it0.end < 0x7fff_ffff, bvval.values@.len() == %(v)s.len(),
-                bvval.values@ =~= Seq::new(%(v)s.len(), |j: int| if 0 <= j - (offset as int) < r3_it0.start { !%(v)s[j] } else { %(v)s[j] }),
+FN_OVERLAYS['vector::bool_vector_not'] = dict(loops={0: '''            //bind V = if let Some\\((?:mut )?(\\w+)\\) = push_state\\.bool_vector_stack\\.pop\\(\\)
+            //bind OFS = if let Some\\((\\w+)\\) = push_state\\.int_stack\\.pop\\(\\)
+            invariant
+                r3_it0.start <= r3_it0.end, r3_it0.end == %(v)s.len(), r3_it0.end < 0x7fff_ffff, $V.values@.len() == %(v)s.len(),
+                $V.values@ =~= Seq::new(%(v)s.len(), |j: int| if 0 <= j - ($OFS as int) < r3_it0.start { !%(v)s[j] } else { %(v)s[j] }),
             ensures
-                bvval.values@ =~= Seq::new(%(v)s.len(), |j: int| if 0 <= j - (offset as int) < %(v)s.len() { !%(v)s[j] } else { %(v)s[j] }),
+                $V.values@ =~= Seq::new(%(v)s.len(), |j: int| if 0 <= j - ($OFS as int) < %(v)s.len() { !%(v)s[j] } else { %(v)s[j] }),
             decreases r3_it0.end - r3_it0.start,
 ''' % dict(v=_ov)})
 
